@@ -6,7 +6,7 @@ MCConfigs == { [phase |-> 0, fabric |-> 0, regime |-> 4, n |-> 4],    \* texture
                [phase |-> 1, fabric |-> 5, regime |-> 0, n |-> 4],    \* null, enstatite
                [phase |-> 0, fabric |-> 5, regime |-> 6, n |-> 3],    \* invalid pair in a texture regime
                [phase |-> 0, fabric |-> 2, regime |-> 3, n |-> 3] }   \* unsupported regime
-MCPars == { [M |-> 125, chi |-> 3, asm |-> <<0>>, phiOl |-> 10],
-            [M |-> 0,   chi |-> 0, asm |-> <<0, 1>>, phiOl |-> 7],
-            [M |-> 10,  chi |-> 3, asm |-> <<1, 0>>, phiOl |-> 7] }
+MCPars == { [M |-> 125, chi |-> 3, asm |-> <<0>>, phiOl |-> 10, x |-> <<5, 0>>],
+            [M |-> 0,   chi |-> 0, asm |-> <<0, 1>>, phiOl |-> 7, x |-> <<5, 0>>],
+            [M |-> 10,  chi |-> 3, asm |-> <<1, 0>>, phiOl |-> 7, x |-> <<5, 0>>] }
 ====
